@@ -1,4 +1,5 @@
 """C07 - Pool.run yields exactly one result per input under every schedule and death (engine POOLSIM)."""
+from hypothesis import strategies as st
 import poolcases
 from core import Out
 
@@ -37,7 +38,13 @@ def shards(tier):
 
 
 def strategy(tier):
-    return poolcases.config(retry_choices=RETRY, rr_choices=RR)
+    # one case in eight is a HISTORY of runs on one pool (restarts, kills, additions, runs with a refusing enqueue_fn in between): every run
+    # of it is a Pool.run the property speaks about - what an earlier run leaves behind is part of "every schedule" (round-4 seed C07-m8)
+    cfg = poolcases.config(retry_choices=RETRY, rr_choices=RR)
+    return st.one_of(cfg, cfg, cfg, cfg, cfg, cfg, cfg, poolcases.history_config())
+
+
+_HIST_SYMPTOMS = ('deadlock', 'livelock', 'missing', 'duplicate', 'foreign_value')
 
 
 def dfs_configs(tier):
@@ -209,6 +216,11 @@ def run_realpool(case, ctx):
 def run_case(case, ctx):
     if case.get('realpool'):
         return run_realpool(case, ctx)
+    if 'history' in case:
+        out = poolcases.run_history(case)
+        out.violations = [v for v in out.violations if v['symptom'] in _HIST_SYMPTOMS or v['symptom'].startswith('internal_error')]
+        out.label('history')
+        return out
     dfs = bool(case.get('dfs'))
     out, sim = poolcases.run(case, WHICH, dfs=dfs)
     if dfs:
@@ -253,7 +265,11 @@ def _enq_dead_unread(case, outd, v):
 
 
 TRIGGERS = {'enqueue_to_dead_worker_with_unread_result': _enq_dead_unread}
-simplify = poolcases.simplify
+def simplify(case):
+    if 'history' in case:
+        yield from poolcases.simplify_history(case)
+    else:
+        yield from poolcases.simplify(case)
 
 
 def teardown_shard(ctx):
